@@ -233,7 +233,9 @@ def rule_po2_export_values(rep, repo, tier):
           ("quantized_po2", dict(bits=3, max_value=1)),
           ("quantized_relu_po2", dict(bits=3)),
           ("quantized_relu_po2", dict(bits=3, quadratic_approximation=True)),
-          ("quantized_relu_po2", dict(bits=4, max_value=2))]
+          ("quantized_relu_po2", dict(bits=4, max_value=2)),
+          ("quantized_po2", dict(bits=4, max_value=3)),
+          ("quantized_relu_po2", dict(bits=4, max_value=6))]
   if tier == "thorough":
     cfgs += [("quantized_po2", dict(bits=b, quadratic_approximation=qa,
                                     max_value=mv))
@@ -247,8 +249,16 @@ def rule_po2_export_values(rep, repo, tier):
     except ConfigRejected:
       continue
     vs = value_set(b.fwd("infer"))
-    if vs.kind != "po2" or vs.exps.kind != "fin" and \
-        None in vs.exps.bounds():
+    if vs.kind != "po2":
+      # the export describes such a weight by (sign, round(log2|w|)): a
+      # stored value that is not a power of two cannot be rebuilt from it
+      n += 1
+      rep.fail("R4", unit, "po2-quantizer-stores-non-power-of-two",
+               "%s: the value set of the quantizer is %r; the exported "
+               "sign / exponent pair only describes powers of two" %
+               (cfg, vs), loc=loc, instance=cfg)
+      continue
+    if vs.exps.kind != "fin" and None in vs.exps.bounds():
       continue
     elo, ehi = vs.exps.bounds()
     exps = [e for e in range(int(elo), int(ehi) + 1)
